@@ -16,17 +16,29 @@ spec -> code : StatsMC.tla enumerates every case of the bounded space (data x we
                array spread over all cases by a hash, and a few data sets are run under every
                row (thorough tier: the full product).  Every enumerated case is concretised
                accordingly and executed against esutil.stat (all option settings).
+               Round 3 adds two more fields that no expectation reads: `pr`, the PRINTING options of the call (entry point
+               get_stats / print_stats, doprint, nsigma_print / nsigma, verbose, silent - one of the 48 combinations per
+               case, a few data sets under all of them; stdout / stderr are captured and discarded: printing must not change
+               a returned value), and SCALE (family "sc"): the case is a small pattern (x, w) plus a replication factor K and
+               a layout (tiled / blocks / shuffled); the arrays handed to the code are the K replicas (1 .. 18000 elements in
+               the quick tier, 2^24.. in the thorough tier) with the weights additionally in float16, and the result is judged
+               on the pattern through the replication law Stats!SScaleLaw, which TLC checks on every pattern.
 code -> spec : what the real code returned - for sigma_clip the whole iteration, re-observed
                through the public call with niter = 0..k - is written as ndjson and judged by
                StatsTrace.tla (SFailing of Stats.tla); larger seeded cases go the same way.
 Python never judges a result: it maps abstract <-> concrete, projects observed floats onto
 lattice rationals / intervals (vh.ratproj, `lreal` below) and records.
 """
+import contextlib
 import copy
+import io
 import json
 import math
+import os
 import random
+import sys
 import warnings
+import zlib
 from fractions import Fraction as Fr
 
 import numpy as np
@@ -72,36 +84,40 @@ BIGOFF = 10 ** 8
 RELTOL4 = 16 * Fr(1, 2 ** 23)         # "to rounding" for float32 input: 16 ulp of float32
 INT31 = 2 ** 31 - 1
 IVL_KMAX = 256
-DTYPE = {"f8": "<f8", "f8be": ">f8", "f4": "<f4", "i8": "<i8", "i4be": ">i4", "u2": "<u2", "u8": "<u8",
+DTYPE = {"f2": "<f2", "f8": "<f8", "f8be": ">f8", "f4": "<f4", "i8": "<i8", "i4be": ">i4", "u2": "<u2", "u8": "<u8",
          "i1": "|i1", "i2": "<i2", "i2be": ">i2", "i4": "<i4", "u1": "|u1", "u4be": ">u4"}
-KIND = {"f8": "f8", "f8be": "f8", "strided": "f8", "reversed": "f8", "readonly": "f8", "f4": "f4", "list": "list",
+KIND = {"f2": "f2", "f8": "f8", "f8be": "f8", "strided": "f8", "reversed": "f8", "readonly": "f8", "f4": "f4", "list": "list",
         "i8": "int", "i4be": "int", "i1": "int", "i2": "int", "i2be": "int", "i4": "int",
         "u2": "uint", "u8": "uint", "u1": "uint", "u4be": "uint"}
 INTREPS = sorted(r for r, k in KIND.items() if k in ("int", "uint"))
 NITER = 4
+LAYOUTS = ("tile", "block", "shuffle")
+SCALE_NMAX = 2 ** 19      # largest array of a scale case on a lattice other than "unit" (patterns of <= 4 values, K <= 65537)
 
 BOUNDS = {
     "quick": dict(MinLen=1, MaxLen=3, Vals={0, 1, 3, 4}, Wts={0, 1, 2, 8}, MaxW=32, MuNone=True,
                   N2Max=2, Vals2={0, 3}, Wts2={0, 1, 2},
                   ClipMaxLen=4, ClipMaxLenW=3, ClipVals={0, 1, 2, 3, 6}, ClipWts={1, 8}, NSigIdx={1, 2, 4}, ClipNiter=NITER,
                   TabX=set(range(0, 5)), TabV={0, 1, 4}, TabMax=4,
-                  CovMaxN=2, CovDiag={1, 2, 4, 9}, CovOffN=6, CovShift=3, DefMaxW=12),
+                  CovMaxN=2, CovDiag={1, 2, 4, 9}, CovOffN=6, CovShift=3, DefMaxW=12,
+                  ScMaxLen=3, ScVals={0, 1, 4}, ScWts={0, 1, 8}, ScLawK=3, ScKExtra={1}, ScHuge=False),
     # (sized so that the whole tier - model, ~0.5 million replayed calls records, trace validation - stays within ~15 min)
     "thorough": dict(MinLen=1, MaxLen=4, Vals={0, 1, 3, 4}, Wts={0, 1, 2, 8}, MaxW=32, MuNone=True,
                      N2Max=3, Vals2={0, 3}, Wts2={0, 1, 2},
                      ClipMaxLen=5, ClipMaxLenW=3, ClipVals={0, 1, 2, 3, 6}, ClipWts={1, 2, 8}, NSigIdx={1, 2, 3, 4, 5, 6},
                      ClipNiter=NITER, TabX=set(range(0, 7)), TabV=set(range(0, 6)), TabMax=4,
-                     CovMaxN=3, CovDiag={1, 2, 4, 9}, CovOffN=6, CovShift=3, DefMaxW=12),
+                     CovMaxN=3, CovDiag={1, 2, 4, 9}, CovOffN=6, CovShift=3, DefMaxW=12,
+                     ScMaxLen=3, ScVals={0, 1, 3, 4}, ScWts={0, 1, 2, 8}, ScLawK=3, ScKExtra={8191, 8192, 21845, 65536, 65537}, ScHuge=True),
 }
 INVARIANTS = ["DefsAgree", "MomentsSane", "MedSafe", "MedRefines", "ClipRefines", "ClipNonEmpty", "ClipStopsOK",
-              "ClipStatsDefined", "InterpRefines", "CovSane", "DesignCovers", "RepAdmissible"]
+              "ClipStatsDefined", "InterpRefines", "CovSane", "DesignCovers", "RepAdmissible", "ScaleLaw", "PrintCovers"]
 # quantify over SUBSET x SUBSET of the positions in every clipping state: checked in a run of their own on a small scope
 CLIP_THEOREMS = ["ClipPredsAgree", "ClipTolSound"]
 CLIP_THEOREM_BOUNDS = {"quick": dict(ClipMaxLen=3, ClipMaxLenW=3, ClipVals={0, 1, 3, 6}, ClipWts={1, 8}, NSigIdx={1, 2, 4}),
                        "thorough": dict(ClipMaxLen=4, ClipMaxLenW=3, ClipVals={0, 1, 2, 3, 6}, ClipWts={1, 8}, NSigIdx={1, 2, 4})}
 ACTIONS = ["ChooseX1", "ChooseW1", "ChooseMu", "MedStart", "MedStep", "MedDone", "ChooseX2", "ChooseW2",
            "ChooseClipX", "ChooseClipW", "ClipStep", "ClipFinish", "ChooseNodes", "ChooseTabV", "ChooseCovDiag", "ChooseCovOff",
-           "ChooseRpWm", "ChooseRpCl", "ChooseRpIp", "ChooseRpCv"]
+           "ChooseRpWm", "ChooseRpCl", "ChooseRpIp", "ChooseRpCv", "ChooseRpPrWm", "ChooseRpPrCl", "ChooseScX", "ChooseScW", "ChooseScRp"]
 
 
 def _su():
@@ -134,8 +150,10 @@ def lat_attrs(name):
 def check_tables(opts):
     """the attributes StatsMC.tla declares for each lattice must hold for the numbers used here"""
     names = [l["name"] for l in opts["lats"]]
-    if sorted(names) != sorted(LATNUM) or sorted(opts["reps"]) != sorted(KIND):
+    if sorted(names) != sorted(LATNUM) or sorted(opts["screps"]) != sorted(KIND) or sorted(opts["reps"] + ["f2"]) != sorted(KIND):
         raise MachineryError("lattice / representation names of StatsMC.tla and the adapter differ")
+    if sorted(opts["lays"]) != sorted(LAYOUTS) or len(opts["prs"]) != 48:
+        raise MachineryError("layout names / printing options of StatsMC.tla and the adapter differ")
     tolbig, tolf4 = Fr(*opts["tolbig"]), Fr(*opts["tolf4"])
     for l in opts["lats"]:
         num = LATNUM[l["name"]]
@@ -152,6 +170,15 @@ def check_tables(opts):
         vals = ([(v + num["off"]) * num["unit"] for v in (0, num["kmax"])] +
                 [(v + num["xoff"]) * num["xunit"] for v in (-2, num["kmax"] + 2, Fr(1, 2))] +
                 [m * num["cunit"] for m in (CKMIN, num["ckmax"])] + [WMAX * num["wunit"]])
+        # float16 holds every weight; every partial sum of a scale case (<= 2^17 elements) is exact in binary64
+        for wv in range(WMAX + 1):
+            if Fr(float(np.float16(float(wv * num["wunit"])))) != wv * num["wunit"]:
+                raise MachineryError("lattice %s: weight %d not representable in float16" % (l["name"], wv))
+        # (products w * x are multiples of the power of two in unit * wunit: the partial sums stay below 2^53 of them)
+        q = num["unit"] * num["wunit"]
+        pow2 = Fr(q.numerator & -q.numerator, q.denominator)
+        if not want["big"] and max(abs(v) for v in vals[:2]) * WMAX * num["wunit"] * SCALE_NMAX / pow2 >= 2 ** 53:
+            raise MachineryError("lattice %s: sums of a scale case not exact" % l["name"])
         for f in vals:
             if Fr(float(f)) != f or (not want["big"] and Fr(float(np.float32(float(f)))) != f):
                 raise MachineryError("lattice %s: %s not representable" % (l["name"], f))
@@ -168,16 +195,48 @@ def lat(name, abscissa=False):
 JUNK = 7777
 
 
-def mk(vals, rep):
-    """exact values (Fractions; a flat list = 1-d, a list of rows = 2-d) -> the object handed to the code"""
+def replicas(c):
+    """how the pattern of a case is replicated: {} (as it is) or K / layout / shuffle key (the same for data and weights)"""
+    K = c.get("K", 1)
+    if K == 1:
+        return {}
+    if c["lay"] not in LAYOUTS:
+        raise MachineryError("unknown layout %r" % (c["lay"],))
+    n = len(c["x"][0]) if isinstance(c["x"][0], list) else len(c["x"])
+    if n * K > SCALE_NMAX and c["lat"] != "unit":
+        raise MachineryError("scale case larger than the lattice was verified for")
+    return {"K": K, "lay": c["lay"], "key": zlib.crc32(json.dumps([c["x"], c["w"], K]).encode())}
+
+
+def expand(a, K, lay, key):
+    """K replicas of the 1-d pattern a (ndarray: element type and byte order kept; or list)"""
+    if isinstance(a, list):
+        if lay == "tile":
+            return a * K
+        if lay == "block":
+            return [v for v in a for _ in range(K)]
+        return [a[i] for i in expand(np.arange(len(a)), K, lay, key)]
+    if lay == "block":
+        return np.repeat(a, K)
+    big = np.tile(a, K)
+    if lay == "shuffle":
+        big = big[np.random.RandomState(key).permutation(big.size)]
+    return big
+
+
+def mk(vals, rep, K=1, lay="tile", key=0):
+    """exact values (Fractions; a flat list = 1-d, a list of rows = 2-d) -> the object handed to the code
+    (K > 1: K replicas of the 1-d pattern in the given layout)"""
     two = bool(vals) and isinstance(vals[0], (list, tuple))
+    if two and K > 1:
+        raise MachineryError("replication of 2-d patterns not supported")
     flat_ = [Fr(v) for row in vals for v in row] if two else [Fr(v) for v in vals]
     for v in flat_:
         if Fr(float(v)) != v:
             raise MachineryError("value %s not representable in binary64" % (v,))
     if rep == "list":
         conv = int if all(v.denominator == 1 for v in flat_) else float
-        return [[conv(v) for v in row] for row in vals] if two else [conv(v) for v in vals]
+        return [[conv(v) for v in row] for row in vals] if two else expand([conv(v) for v in vals], K, lay, key)
     dt = np.dtype(DTYPE.get(rep, "<f8"))
     if dt.kind in "iu":
         if any(v.denominator != 1 for v in flat_):
@@ -188,6 +247,10 @@ def mk(vals, rep):
     back = [Fr(int(v)) if dt.kind in "iu" else Fr(float(v)) for v in a.ravel()]
     if back != flat_:
         raise MachineryError("representation %s cannot hold the values exactly: %s" % (rep, flat_[:4]))
+    if K > 1:
+        a = expand(a, K, lay, key)
+        if a.dtype != dt or a.size != K * len(flat_):
+            raise MachineryError("replication changed the representation")
     if rep == "strided":
         base = np.full(tuple(2 * n + 1 for n in a.shape), float(JUNK), dtype=dt)
         view = base[tuple(slice(1, None, 2) for _ in a.shape)]
@@ -201,11 +264,11 @@ def mk(vals, rep):
     return a
 
 
-def cdata(col, L, rep):
+def cdata(col, L, rep, **big):
     for v in col:
         if not 0 <= v <= L["kmax"]:
             raise MachineryError("abstract datum %s outside the range the lattice was verified for" % v)
-    return mk([(Fr(v) + L["off"]) * L["unit"] for v in col], rep)
+    return mk([(Fr(v) + L["off"]) * L["unit"] for v in col], rep, **big)
 
 
 def xcols(c, L):
@@ -213,13 +276,15 @@ def xcols(c, L):
     for v in flat(c["x"]):
         if not 0 <= v <= L["kmax"]:
             raise MachineryError("abstract datum %s outside the range the lattice was verified for" % v)
-    return cmat(c["x"], lambda col: [(Fr(v) + L["off"]) * L["unit"] for v in col], c["rep"]["x"])
+    return cmat(c["x"], lambda col: [(Fr(v) + L["off"]) * L["unit"] for v in col], c["rep"]["x"], **replicas(c))
 
 
-def cmat(cols, fn, rep):
+def cmat(cols, fn, rep, **big):
     """columns -> 1-d (one column) or N-by-d"""
     if len(cols) == 1:
-        return mk(fn(cols[0]), rep)
+        return mk(fn(cols[0]), rep, **big)
+    if big:
+        raise MachineryError("replication of N-by-d patterns not supported")
     cc = [fn(c) for c in cols]
     return mk([[cc[j][i] for j in range(len(cc))] for i in range(len(cc[0]))], rep)
 
@@ -252,8 +317,33 @@ def call(fn, *a, **kw):
             return fn(*a, **kw)
 
 
+@contextlib.contextmanager
+def discard_output(fd2):
+    """what the call prints is not observed: python-level stdout is captured and dropped; with fd2 also file descriptor 2
+    (esutil binds sys.stderr at import time: the "everything clipped" message of sigma_clip(silent=False))"""
+    saved = None
+    if fd2:
+        sys.stderr.flush()
+        saved = os.dup(2)
+        dn = os.open(os.devnull, os.O_WRONLY)
+        os.dup2(dn, 2)
+        os.close(dn)
+    try:
+        with contextlib.redirect_stdout(io.StringIO()):
+            yield
+    finally:
+        if saved is not None:
+            sys.stderr.flush()
+            os.dup2(saved, 2)
+            os.close(saved)
+
+
+def nsp_of(pr):
+    return pr["nsp"][0] / pr["nsp"][1]
+
+
 # ---- projection of observed floats ------------------------------------------------------------------
-def lreal(obs, S, D, cap, unit, off=0, square=False, reltol=RELTOL):
+def lreal(obs, S, D, cap, unit, off=0, square=False, reltol=RELTOL, K=1):
     """projection of one observed float on a LARGE-OFFSET lattice or for float32 input (as vh/adapters/c14.py big_real).
 
     Tolerance "to rounding", relative to the operand scale S = max |operand| in lattice units, OFFSET INCLUDED:
@@ -267,7 +357,10 @@ def lreal(obs, S, D, cap, unit, off=0, square=False, reltol=RELTOL):
     denominator bound of the quantity) at most one candidate lies inside and the nearest one is recorded ("rat"); otherwise
     the interval itself, rounded outward to multiples of 1/K and clamped to the range `cap` any expectation of the case can
     take ("ivl", K a power of two chosen so that TLC's 32-bit integers suffice) - Stats!SObsEqI then checks that the exact
-    expectation lies inside."""
+    expectation lies inside.
+    K > 1 (with square): an ERROR-type output of K replicas of a pattern, recorded in units of 1/sqrt(K) - the recorded
+    quantity is K * obs^2, what Stats!SScaleLaw equates with the pattern's squared error; obs * sqrt(K) is a deviation-like
+    quantity of the pattern and is granted the absolute tolerance delta (sqrt(K) bracketed to 2^-60)."""
     try:
         f = float(obs)
     except (TypeError, ValueError):
@@ -279,7 +372,11 @@ def lreal(obs, S, D, cap, unit, off=0, square=False, reltol=RELTOL):
     if square:
         if q < 0:
             return dict(R_OFF)
-        a, lo, hi = q * q, max(q - delta, 0) ** 2, (q + delta) ** 2
+        if K == 1:
+            a, lo, hi = q * q, max(q - delta, 0) ** 2, (q + delta) ** 2
+        else:
+            r0 = Fr(math.isqrt(K << 120), 2 ** 60)
+            a, lo, hi = q * q * K, max(q * r0 - delta, 0) ** 2, (q * (r0 + Fr(1, 2 ** 60)) + delta) ** 2
     else:
         a = q - off
         lo, hi = a - delta, a + delta
@@ -302,15 +399,16 @@ def lreal(obs, S, D, cap, unit, off=0, square=False, reltol=RELTOL):
 
 class Proj:
     """projection of the outputs of one call: lattice, precision of the input, operand scale and expectation bounds"""
-    def __init__(self, L, f4, xs, mu=None):
-        """xs: every abstract datum of the call; mu: supplied mean (Fraction) or None"""
-        self.L, self.f4 = L, f4
+    def __init__(self, L, f4, xs, mu=None, K=1):
+        """xs: every abstract datum of the call; mu: supplied mean (Fraction) or None; K: the arrays are K replicas of xs"""
+        self.L, self.f4, self.K = L, f4, K
         pts = [Fr(v) for v in xs] + ([Fr(mu)] if mu is not None else [])
         self.S = max([abs(v + L["off"]) for v in pts] + [1])
         self.cap1 = max(abs(v) for v in pts) + 1
         self.cap2 = max([(max(xs) - min(xs)) ** 2] + ([max((Fr(v) - mu) ** 2 for v in xs)] if mu is not None else [])) + 1
-        self.wide = L["big"] or f4
-        self.reltol = RELTOL4 if f4 else RELTOL
+        self.wide = L["big"] or f4 or K > 1
+        # sums over N = K * n elements: pairwise / blocked summation adds at most ~log2(N) roundings to the chain
+        self.reltol = (RELTOL4 if f4 else RELTOL) * (1 if K == 1 else 2 + (K * len(xs)).bit_length())
 
     def lin(self, v, D):                   # value-type output (lattice units, offset removed)
         if self.wide:
@@ -322,8 +420,13 @@ class Proj:
             return lreal(v, self.S, D, self.cap2, self.L["unit"], square=True, reltol=self.reltol)
         return real(v, 8 * self.S * self.S, div=self.L["unit"] ** 2, square=True)
 
+    def edev2(self, v, D):                 # error-type output, recorded squared (in units of 1/K for K replicas)
+        if self.K == 1:
+            return self.dev2(v, D)
+        return lreal(v, self.S, D, self.cap2, self.L["unit"], square=True, reltol=self.reltol, K=self.K)
+
     def inv2(self, v):                     # 1/sqrt(sum w): weights only (always binary64: the code converts them)
-        return real(v, 1, mul=self.L["wunit"], square=True)
+        return real(v, 1, mul=self.L["wunit"] * self.K, square=True)
 
 
 def flat(cols):
@@ -336,7 +439,7 @@ def ex_wmom(c, ps):
     L = lat(c["lat"])
     d = len(c["x"])
     x = xcols(c, L)
-    w = cmat(c["w"], lambda col: [Fr(v) * L["wunit"] for v in col], c["rep"]["w"])
+    w = cmat(c["w"], lambda col: [Fr(v) * L["wunit"] for v in col], c["rep"]["w"], **replicas(c))
     W = max(sum(wc) for wc in c["w"])
     need_den(W ** 4, "wmom total weight")
     fr = Frame(x, w)
@@ -346,7 +449,7 @@ def ex_wmom(c, ps):
         mu = Fr(*p["mu"]) if p["hasmu"] else None
         if p["hasmu"]:
             kw["inputmean"] = float((mu + L["off"]) * L["unit"])
-        P = Proj(L, c["rep"]["x"] == "f4", flat(c["x"]), mu)
+        P = Proj(L, c["rep"]["x"] == "f4", flat(c["x"]), mu, K=c.get("K", 1))
         try:
             res = call(su.wmom, x, w, **kw)
             mean = vec(res[0], d, bcast=bool(p["hasmu"]))
@@ -354,7 +457,7 @@ def ex_wmom(c, ps):
             sd = vec(res[2], d) if p["sdev"] else []
             o = {"err": "none",
                  "mean": [P.lin(v, max(W, 2)) for v in mean],
-                 "err2": [P.dev2(v, max(W ** 4, 4 * W * W)) if p["calcerr"] else P.inv2(v) for v in err],
+                 "err2": [P.edev2(v, max(W ** 4, 4 * W * W)) if p["calcerr"] else P.inv2(v) for v in err],
                  "var": [P.dev2(v, max(W * W, 4 * W)) for v in sd]}
             raw = {"mean": mean, "err": err, "sdev": sd}
         except Exception as e:  # noqa
@@ -375,10 +478,11 @@ def ex_wmom(c, ps):
 def ex_wmedian(c, ps):
     su = _su()
     L = lat(c["lat"])
-    x = cdata(c["x"], L, c["rep"]["x"])
-    w = mk([Fr(v) * L["wunit"] for v in c["w"]], c["rep"]["w"])
+    big = replicas(c)
+    x = cdata(c["x"], L, c["rep"]["x"], **big)
+    w = mk([Fr(v) * L["wunit"] for v in c["w"]], c["rep"]["w"], **big)
     fr = Frame(x, w)
-    P = Proj(L, c["rep"]["x"] == "f4", c["x"])
+    P = Proj(L, c["rep"]["x"] == "f4", c["x"])          # (a datum of the array: no summation involved)
     try:
         v = call(su.wmedian, x, w)
         o = {"err": "none", "val": P.lin(v, 1)}
@@ -423,11 +527,18 @@ def ex_clip(c, ps):
     P = Proj(L, c["rep"]["x"] == "f4", c["x"])
     top = max(p["niter"] for p in ps)
     steps, outs, err = [], [], None
+    pr = c["pr"]
+    noise = dict(verbose=bool(pr["verbose"]), silent=bool(pr["silent"]))      # what is printed is discarded
+    extra_ok = True
     for it in range(top + 1):
         try:
-            res = call(su.sigma_clip, x, weights=w, niter=it, nsig=nsig, get_err=True, get_indices=True, silent=True)
+            extra = {}
+            with discard_output(not pr["silent"]):
+                res = call(su.sigma_clip, x, weights=w, niter=it, nsig=nsig, get_err=True, get_indices=True, extra=extra, **noise)
             steps.append([int(i) + 1 for i in res[3]])
             outs.append(res)
+            # the `extra` dictionary receives the indices too (relation between two outputs: compared directly)
+            extra_ok = extra_ok and list(extra) == ["indices"] and np.array_equal(np.asarray(extra["indices"]), np.asarray(res[3]))
         except Exception as e:  # noqa
             err = e
             break
@@ -447,11 +558,12 @@ def ex_clip(c, ps):
     if err is None:
         full = outs[top]
         for ge, gi in ((False, False), (True, False), (False, True)):
-            r = call(su.sigma_clip, x, weights=w, niter=top, nsig=nsig, get_err=ge, get_indices=gi, silent=True)
+            with discard_output(not pr["silent"]):
+                r = call(su.sigma_clip, x, weights=w, niter=top, nsig=nsig, get_err=ge, get_indices=gi, **noise)
             exp = [full[0], full[1]] + ([full[2]] if ge else []) + ([full[3]] if gi else [])
             if len(r) != len(exp) or not all(np.array_equal(np.asarray(a), np.asarray(b)) for a, b in zip(r, exp)):
                 flags_ok = False
-    return runs, fr.problems() + ([] if flags_ok else ["flag_variants_differ"])
+    return runs, fr.problems() + ([] if flags_ok else ["flag_variants_differ"]) + ([] if extra_ok else ["extra_indices_differ"])
 
 
 def ex_interp(c, ps):
@@ -501,10 +613,13 @@ def ex_gstats(c, ps):
     L = lat(c["lat"])
     d = len(c["x"])
     x = xcols(c, L)
-    w = cmat(c["w"], lambda col: [Fr(v) * L["wunit"] for v in col], c["rep"]["w"])
+    w = cmat(c["w"], lambda col: [Fr(v) * L["wunit"] for v in col], c["rep"]["w"], **replicas(c))
     fr = Frame(x, w)
-    P = Proj(L, c["rep"]["x"] == "f4", flat(c["x"]))
+    P = Proj(L, c["rep"]["x"] == "f4", flat(c["x"]), K=c.get("K", 1))
     n = len(c["x"][0])
+    pr = c["pr"]
+    fn = su.print_stats if pr["entry"] == "print_stats" else su.get_stats
+    nsp = nsp_of(pr)
     W = max(sum(wc) for wc in c["w"])
     runs = []
     for p in ps:
@@ -515,24 +630,41 @@ def ex_gstats(c, ps):
                 kw["calcerr"] = False
         elif p["mode"] == "clip":
             check_tol(c, c["x"][0], L)
-            kw.update(nsig=c["nsn"] / c["nsd"], niter=p["niter"], silent=True)
+            kw.update(nsig=c["nsn"] / c["nsd"], niter=p["niter"], silent=bool(pr["silent"]))
+            if pr["verbose"]:
+                kw["verbose"] = True
             if c["hasw"]:
                 kw["weights"] = w
+        # the printing options (default values are not passed)
+        if pr["entry"] == "print_stats":
+            if nsp != 1:
+                kw["nsigma"] = nsp
+        else:
+            if pr["doprint"]:
+                kw["doprint"] = True
+            if nsp != 1:
+                kw["nsigma_print"] = nsp
         plain = p["mode"] == "plain" or (p["mode"] == "clip" and not c["hasw"])
         T = n if plain else W                  # total weight of the moments
+        none = {"mean": [], "var": [], "err2": [], "err2i": [], "min": [], "max": []}
         try:
-            res = call(su.get_stats, x, **kw)
-            f = {key: vec(res[key], d) for key in ("mean", "std", "err", "min", "max")}
-            o = {"err": "none",
-                 "mean": [P.lin(v, max(T, 2)) for v in f["mean"]],
-                 "var": [P.dev2(v, max(T * T, 2)) for v in f["std"]],
-                 "err2": [P.dev2(v, max(T ** 3 if plain else T ** 4, 2)) for v in f["err"]],
-                 "err2i": [P.inv2(v) for v in f["err"]],
-                 "min": [P.lin(v, 1) for v in f["min"]],
-                 "max": [P.lin(v, 1) for v in f["max"]]}
-            raw = f
+            with discard_output(p["mode"] == "clip" and not pr["silent"]):
+                res = call(fn, x, **kw)
+            if res is None:
+                o = dict(none, err="none", ret="none")
+                raw = {"returned": None}
+            else:
+                f = {key: vec(res[key], d) for key in ("mean", "std", "err", "min", "max")}
+                o = {"err": "none", "ret": "dict",
+                     "mean": [P.lin(v, max(T, 2)) for v in f["mean"]],
+                     "var": [P.dev2(v, max(T * T, 2)) for v in f["std"]],
+                     "err2": [P.edev2(v, max(T ** 3 if plain else T ** 4, 2)) for v in f["err"]],
+                     "err2i": [P.inv2(v) for v in f["err"]],
+                     "min": [P.lin(v, 1) for v in f["min"]],
+                     "max": [P.lin(v, 1) for v in f["max"]]}
+                raw = f
         except Exception as e:  # noqa
-            o = {"err": type(e).__name__, "mean": [], "var": [], "err2": [], "err2i": [], "min": [], "max": []}
+            o = dict(none, err=type(e).__name__, ret="none")
             raw = {"exc": repr(e)}
         runs.append({"p": p, "o": o, "raw": raw})
     return runs, fr.problems()
@@ -597,6 +729,8 @@ def wmom_params(mus):
 
 
 GSTATS_CLIP_MAXLEN = 8      # = Stats!SClipEnumMax
+GS_MODES = [{"mode": "plain", "calcerr": True, "niter": 0}, {"mode": "weights", "calcerr": True, "niter": 0},
+            {"mode": "weights", "calcerr": False, "niter": 0}]
 
 
 def jobs_of(case, opts):
@@ -606,14 +740,24 @@ def jobs_of(case, opts):
         x, w = case["x"], case["w"]
         how = {"rep": case["rep"], "lat": case["lat"]}
         out = [("wmom", dict(how, x=x, w=w), wmom_params(opts["mus"]))]
-        gs = [{"mode": "plain", "calcerr": True, "niter": 0}, {"mode": "weights", "calcerr": True, "niter": 0},
-              {"mode": "weights", "calcerr": False, "niter": 0}]
-        out.append(("gstats", dict(how, x=x, w=w, hasw=True, nsn=1, nsd=1, tol=[0, 1]), gs))
+        out.append(("gstats", dict(how, x=x, w=w, hasw=True, nsn=1, nsd=1, tol=[0, 1], pr=case["pr"]), GS_MODES))
         if len(x) == 1 and len(w) == 1:
             out.append(("wmedian", dict(how, x=x[0], w=w[0]), [{"v": 1}]))
         return out
+    if op == "sc":
+        # SCALE: K replicas of the 1-d pattern; every routine of the wm family
+        x, w = case["x"], case["w"]
+        how = {"rep": case["rep"], "lat": case["lat"], "K": case["K"], "lay": case["lay"]}
+        if case["K"] > 100000:
+            # (2^24.. elements: one call of each routine)
+            return [("wmedian", dict(how, x=x[0], w=w[0]), [{"v": 1}]),
+                    ("wmom", dict(how, x=x, w=w), [{"calcerr": True, "sdev": True, "hasmu": False, "mu": [0, 1]}]),
+                    ("gstats", dict(how, x=x, w=w, hasw=True, nsn=1, nsd=1, tol=[0, 1], pr=case["pr"]), GS_MODES[1:2])]
+        return [("wmom", dict(how, x=x, w=w), wmom_params(opts["mus"])),
+                ("gstats", dict(how, x=x, w=w, hasw=True, nsn=1, nsd=1, tol=[0, 1], pr=case["pr"]), GS_MODES),
+                ("wmedian", dict(how, x=x[0], w=w[0]), [{"v": 1}])]
     if op == "cl":
-        c = {kk: case[kk] for kk in ("x", "w", "hasw", "nsn", "nsd", "rep", "lat", "tol")}
+        c = {kk: case[kk] for kk in ("x", "w", "hasw", "nsn", "nsd", "rep", "lat", "tol", "pr")}
         nit = case["niter"]
         out = [("clip", c, [{"niter": it} for it in sorted({1, nit})])]
         if len(case["x"]) <= GSTATS_CLIP_MAXLEN:
@@ -632,10 +776,20 @@ ENTRY = {"wmom": "wmom", "wmedian": "wmedian", "clip": "sigma_clip", "interp": "
 
 
 def how_class(op, c):
-    """(the most unusual representation kind among the array arguments, the lattice has a large offset)"""
+    """(the most unusual representation kind among the array arguments, the lattice has a large offset,
+    the round-3 features of the call: large arrays, non-default printing options)"""
     kinds = {KIND[r] for r in c["rep"].values()}
-    k = next(kk for kk in ("uint", "int", "f4", "list", "f8") if kk in kinds)
-    return k, op != "cov" and (lat(c["lat"])["big"] or (op == "interp" and lat(c["vlat"])["big"]))
+    k = next(kk for kk in ("f2", "uint", "int", "f4", "list", "f8") if kk in kinds)
+    feats = set()
+    if c.get("K", 1) * (len(flat(c["x"])) if op in ("wmom", "gstats") else len(c.get("x", []))) >= 1000:
+        feats.add("scale")
+    pr = c.get("pr")
+    if pr and op == "gstats":
+        feats |= {f for f, on in (("print_stats", pr["entry"] == "print_stats"), ("doprint", pr["doprint"]),
+                                  ("nsigma_print", pr["doprint"] and pr["nsp"] != [1, 1])) if on}
+    if pr and op == "clip":
+        feats |= {f for f, on in (("verbose", pr["verbose"]), ("not-silent", not pr["silent"])) if on}
+    return k, op != "cov" and (lat(c["lat"])["big"] or (op == "interp" and lat(c["vlat"])["big"])), frozenset(feats)
 
 
 def struct_class(op, c, p):
@@ -659,11 +813,14 @@ def how_suffix(hows):
     """which representation / lattice feature the failures of one (entry, clause, structure) group need:
     nothing if plain float64 data on a small lattice fail too; 'large-offset' if float64 data fail only there;
     else the representation kinds that fail (and 'large-offset' if they fail only there)"""
+    feats = frozenset.intersection(*[f for _, _, f in hows])          # round-3 features every failing call has
+    tail = ("|" + "+".join(sorted(feats))) if feats else ""
+    hows = {(k, b) for k, b, _ in hows}
     if ("f8", False) in hows:
-        return ""
+        return tail
     if ("f8", True) in hows:
-        return "|large-offset"
-    return "|" + "+".join(sorted({k for k, _ in hows})) + ("" if any(not b for _, b in hows) else "|large-offset")
+        return "|large-offset" + tail
+    return "|" + "+".join(sorted({k for k, _ in hows})) + ("" if any(not b for _, b in hows) else "|large-offset") + tail
 
 
 def judge(ctx, recs, what):
@@ -750,7 +907,7 @@ def seeded_jobs(rng, n, opts):
             if sum(w) == 0:
                 w[rng.randrange(ln)] = 1
             h = how.data(rng, max(x))
-            out.extend(jobs_of({"op": "wm", "x": [x], "w": [w], "rep": h["rep"], "lat": h["lat"]}, opts))
+            out.extend(jobs_of({"op": "wm", "x": [x], "w": [w], "rep": h["rep"], "lat": h["lat"], "pr": rng.choice(opts["prs"])}, opts))
         elif kind == "wmNd":
             ln, d = rng.randint(2, 6), rng.randint(2, 3)
             x = [[rng.randint(0, 6 if small else 8) for _ in range(ln)] for _ in range(d)]
@@ -760,7 +917,7 @@ def seeded_jobs(rng, n, opts):
                 if sum(col) == 0:
                     col[rng.randrange(ln)] = 1
             h = how.data(rng, max(max(col) for col in x))
-            out.extend(jobs_of({"op": "wm", "x": x, "w": w, "rep": h["rep"], "lat": h["lat"]}, opts))
+            out.extend(jobs_of({"op": "wm", "x": x, "w": w, "rep": h["rep"], "lat": h["lat"], "pr": rng.choice(opts["prs"])}, opts))
         elif kind in ("clu", "clw"):
             hasw = kind == "clw"
             ln = rng.randint(5, 10) if hasw else rng.randint(6, 24)
@@ -772,8 +929,8 @@ def seeded_jobs(rng, n, opts):
             while hasw and sum(w) > 16:
                 w[w.index(max(w))] = 1
             ns = nsigs[rng.randrange(len(nsigs))]
-            out.extend(jobs_of(dict(how.data(rng, max(x)), op="cl", x=x, w=w, hasw=hasw, nsn=ns[0], nsd=ns[1], niter=rng.choice([3, 4, 6, 10])),
-                               opts))
+            out.extend(jobs_of(dict(how.data(rng, max(x)), op="cl", x=x, w=w, hasw=hasw, nsn=ns[0], nsd=ns[1], niter=rng.choice([3, 4, 6, 10]),
+                                    pr=rng.choice(opts["prs"])), opts))
         elif kind == "ip":
             nn = rng.randint(2, 7 if small else 8)
             xs = sorted(rng.sample(range(0, 7 if small else 21), nn))
@@ -813,12 +970,32 @@ def census(recs, cen):
             cen["interval:" + r["op"]] = cen.get("interval:" + r["op"], 0) + 1
         if r["op"] == "clip" and Fr(*c["tol"]) > 0:
             cen["clip_with_tolerance"] = cen.get("clip_with_tolerance", 0) + 1
+        # round 3: large arrays (by weight representation class), printing options really passed
+        n = c.get("K", 1) * (len(c["x"][0]) if r["op"] in ("wmom", "gstats") else len(c.get("x", [])))
+        if n >= 2048 and r["op"] in ("wmom", "wmedian", "gstats"):
+            for key in ("scale>=2048:" + r["op"], "scale>=2048:weights-" + KIND[c["rep"]["w"]]):
+                cen[key] = cen.get(key, 0) + 1
+        pr = c.get("pr") if r["op"] in ("gstats", "clip") else None
+        if pr:
+            on = []
+            if r["op"] == "gstats":
+                ret = {u["o"].get("ret") for u in r["runs"]}
+                on = [("print:get_stats,doprint", pr["entry"] == "get_stats" and pr["doprint"]),
+                      ("print:get_stats,doprint,nsigma_print", pr["entry"] == "get_stats" and pr["doprint"] and pr["nsp"] != [1, 1]),
+                      ("print:print_stats", pr["entry"] == "print_stats"),
+                      ("print:print_stats,nsigma", pr["entry"] == "print_stats" and pr["nsp"] != [1, 1]),
+                      ("print:print_stats_returned_statistics", pr["entry"] == "print_stats" and "dict" in ret)]
+            mode_clip = r["op"] == "clip" or any(u["p"].get("mode") == "clip" for u in r["runs"])
+            on += [("print:verbose:" + r["op"], mode_clip and pr["verbose"]), ("print:not-silent:" + r["op"], mode_clip and not pr["silent"])]
+            for key, yes in on:
+                if yes:
+                    cen[key] = cen.get(key, 0) + 1
     return cen
 
 
 def run(ctx):
     B = BOUNDS[ctx.tier]
-    kinds = {"wm", "wm2", "cl", "ip", "cv", "rp"}
+    kinds = {"wm", "wm2", "cl", "ip", "cv", "rp", "sc"}
     consts = dict(B, Kinds=kinds, MedVariantGE=False, DoExport=False, RepFull=not ctx.quick)
     # 1. design level: definitions agree, mechanisms refine the property, no overflow - the whole space.
     #    Per-action coverage (vacuity guard) is costly on the large space: in the thorough tier it is taken on the quick
@@ -860,7 +1037,7 @@ def run(ctx):
     nkinds = {}
     for cse in cases:
         nkinds[cse["op"]] = nkinds.get(cse["op"], 0) + 1
-    if set(nkinds) != {"wm", "cl", "ip", "cv"}:
+    if set(nkinds) != {"wm", "cl", "ip", "cv", "sc"}:
         raise MachineryError("export incomplete: %s" % nkinds)
     jobs = []
     for cse in cases:
@@ -894,7 +1071,11 @@ def run(ctx):
     nseed = batch([(nrec + 1 + i, op, c, ps) for i, (op, c, ps) in enumerate(sj)], "judge seeded larger cases (StatsTrace)")
     # 4. vacuity guards on the two added dimensions, binding self-test
     pairs = cen.pop("pairs")
-    need = (["rep:" + r for r in opts["reps"]] + ["lat:" + l["name"] for l in opts["lats"]] +
+    need = (["rep:" + r for r in opts["screps"]] + ["lat:" + l["name"] for l in opts["lats"]] +
+            ["scale>=2048:" + op for op in ("wmom", "wmedian", "gstats")] +
+            ["scale>=2048:weights-" + k for k in ("f2", "f4", "f8", "int", "uint", "list")] +
+            ["print:get_stats,doprint", "print:get_stats,doprint,nsigma_print", "print:print_stats", "print:print_stats,nsigma",
+             "print:verbose:clip", "print:not-silent:clip", "print:verbose:gstats", "print:not-silent:gstats"] +
             ["large_offset:" + op for op in ("wmom", "wmedian", "clip", "interp", "gstats")] +
             ["interval:" + op for op in ("wmom", "clip", "interp", "gstats")] + ["clip_with_tolerance"] +
             ["type_spanning_integers:" + op for op in EXEC])
@@ -910,7 +1091,12 @@ def run(ctx):
                 "from StatsMC.tla, each with one (representation per array argument, lattice) row of a pairwise-covering design over "
                 "%d representations (%s) and %d lattices (%d of them with offsets 10^8..2^40, %d placing the values across the whole range of "
                 "an 8/16/32-bit integer type), plus a few data sets of every kind under "
-                "%s; plus %d seeded larger cases with drawn representations / lattices. A case is distinct by its abstract record "
+                "%s; every wm / clipping / scale case carries one of the 48 combinations of the printing options (get_stats / print_stats x "
+                "doprint x nsigma_print in {1, 2, 3, 1/2} x verbose x silent) and a few data sets are run under all 48; SCALE: every "
+                "pattern of length 1..%d over values %s x weights %s, replicated K times (K from %s by a pairwise design with layout "
+                "tiled / blocks / shuffled, data representation, lattice, weights in float16 for about half), two patterns under every "
+                "K x every weight representation (float16 included)%s - judged on the pattern through Stats!SScaleLaw; "
+                "plus %d seeded larger cases with drawn representations / lattices / printing options. A case is distinct by its abstract record "
                 "(op, data, representation, lattice) and counted once; evaluations count the calls made on it (option settings)." %
                 (B["MinLen"], B["MaxLen"], len(B["Vals"]), sorted(B["Wts"]), B["MaxW"], opts["mus"], B["N2Max"], B["ClipMaxLen"],
                  sorted(B["ClipVals"]), B["ClipMaxLenW"], sorted(B["ClipWts"]), [opts["nsigs"][i - 1] for i in sorted(B["NSigIdx"])],
@@ -918,7 +1104,10 @@ def run(ctx):
                  B["CovMaxN"], B["CovMaxN"], sorted(B["CovDiag"]), -B["CovShift"], B["CovOffN"] - B["CovShift"],
                  len(opts["reps"]), ", ".join(opts["reps"]), len(opts["lats"]), sum(1 for l in opts["lats"] if l["big"]),
                  sum(1 for l in opts["lats"] if l["name"].startswith("span")),
-                 "every row of the design" if ctx.quick else "the full product representation x representation x lattice", len(sj)))
+                 "every row of the design" if ctx.quick else "the full product representation x representation x lattice",
+                 B["ScMaxLen"], sorted(B["ScVals"]), sorted(B["ScWts"]), opts["scks"],
+                 "" if ctx.quick else ", further K %s and two cases of 3 * 2^23 and 2^24 + 4 points with float32 weights" % sorted(B["ScKExtra"]),
+                 len(sj)))
     ctx.exhaustive = True
     ctx.note(bounds={k: sorted(v) if isinstance(v, set) else v for k, v in B.items()}, exported_cases=nkinds,
              records=nrec, seeded_records=nseed, census={k: v for k, v in sorted(cen.items())},
@@ -944,19 +1133,34 @@ def run(ctx):
         "cov2cor / cor2cov take arrays (a python list has no .shape): list representation not used for matrices; unsigned only for "
         "non-negative matrices / lattices",
         "inputmean given as an [ndim] array, boxcar_average and all-zero weights are outside the statement and not exercised",
+        "printing options: what is written to stdout / stderr is discarded, not judged; print_stats may return nothing (it does on the "
+        "unchanged tree - its docstring promises the statistics, the statement does not name it); whatever it returns is judged like "
+        "get_stats; verbose / silent are passed where sigma_clip is involved (sigma_clip itself, get_stats with nsig / niter)",
+        "scale: arrays of K replicas on the small-offset lattices only (all partial sums of w*x are exact in binary64); tolerance "
+        "'to rounding' widened by the factor 2 + log2(N) for the summation over N elements; an error-type output e of K replicas is "
+        "recorded as K*e^2 (units of 1/K), e*sqrt(K) being granted the absolute tolerance of a deviation; sigma clipping, "
+        "interpolation and N-by-d inputs are not run at scale",
     ]
     ctx.trusted_base = ctx.trusted_base + ["fractions.Fraction arithmetic and Fraction.limit_denominator in the float->lattice projection"]
 
 
 def pick_probes(picks, recs, rejected):
     """self-test material: the first ACCEPTED record of each kind (a broken tree must not break the self-test)"""
-    if len(picks) == len(EXEC) + 2:
+    if len(picks) == NPROBES:
         return
     for r in recs:
         if r["id"] in rejected or r["problems"] or not all(u["o"]["err"] == "none" for u in r["runs"]):
             continue
         last = r["runs"][-1]["o"]
         keys = [r["op"]]
+        big = r["c"].get("K", 1) >= 1000
+        if r["op"] == "gstats":
+            if last["ret"] == "none":
+                keys = ["gstats_nothing_returned"]
+            elif big:
+                keys.append("gstats_scale")
+        if r["op"] == "wmedian" and big and len(set(r["c"]["x"])) > 1:
+            keys.append("wmedian_scale")
         if r["op"] == "clip":
             if len(last["steps"][-1]) in (0, len(r["c"]["x"])):
                 continue
@@ -966,6 +1170,9 @@ def pick_probes(picks, recs, rejected):
             keys.append("wmom_interval")
         for key in keys:
             picks.setdefault(key, r)
+
+
+NPROBES = len(EXEC) + 5
 
 
 def selftest(ctx, picks):
@@ -986,8 +1193,12 @@ def selftest(ctx, picks):
             o["mean"][0] = bump(o["mean"][0])
         elif key == "wmom_interval":
             o["var"][0] = bump(o["var"][0])
-        elif key == "wmedian":
+        elif key in ("wmedian", "wmedian_scale"):
             o["val"] = bump(o["val"])
+        elif key == "gstats_scale":
+            o["err2i"][0] = bump(o["err2i"][0])             # (last run: weights, calcerr=False - the error is 1/sqrt(K sum w))
+        elif key == "gstats_nothing_returned":
+            bad["c"] = dict(bad["c"], pr=dict(bad["c"]["pr"], entry="get_stats"))       # only print_stats may return nothing
         elif key == "clip":
             o["steps"][-1] = o["steps"][0]            # claims nothing was clipped
         elif key == "clip_interval":
@@ -1000,7 +1211,7 @@ def selftest(ctx, picks):
             o["back"][0][0] = bump(o["back"][0][0])
         probes += [good, bad]
         expect_reject.add(bad["id"])
-    if len(picks) != len(EXEC) + 2 and not ctx.violations:
+    if len(picks) != NPROBES and not ctx.violations:
         # (on a tree that breaks an operation every record of it may be rejected: its probe is then skipped)
         raise MachineryError("self-test: no clean record for some op: %s" % sorted(picks))
     rej = tracecheck.validate(ctx, "StatsTrace.tla", probes, what="self-test: corrupted records rejected", workers=1)
